@@ -14,6 +14,9 @@ var errQueryNonNodeset = fmt.Errorf("cannot query nodes on non-NodeSet's")
 
 func init() {
 	contextFunctions[symbols.NT_AbsoluteLocationPathOnly] = execAbsoluteLocationPathOnly
+	contextFunctions[symbols.NT_AbsoluteLocationPathWithRelative] = execAbsoluteLocationPathWithRelative
+	contextFunctions[symbols.NT_PathExprFilterWithPath] = leftRightDependentResult
+	contextFunctions[symbols.NT_PathExprFilterWithAbbreviatedPath] = execAbbreviatedRelativeLocationPath
 	contextFunctions[symbols.NT_RelativeLocationPathWithStep] = leftRightDependentResult
 	contextFunctions[symbols.NT_Step] = execStep
 	contextFunctions[symbols.NT_NodeTestAndPredicate] = leftRightDependentResult
@@ -45,6 +48,14 @@ func init() {
 func execAbsoluteLocationPathOnly(context *exprContext, expr *grammar.Grammar) error {
 	context.result = NodeSet{context.root}
 	return nil
+}
+
+// execAbsoluteLocationPathWithRelative evaluates "/" RelativeLocationPath: the
+// relative path starts from the root node, wherever the absolute path occurs
+// (including inside predicates and function arguments).
+func execAbsoluteLocationPathWithRelative(context *exprContext, expr *grammar.Grammar) error {
+	context.result = NodeSet{context.root}
+	return execChildren(context, expr)
 }
 
 func execStep(context *exprContext, expr *grammar.Grammar) error {
